@@ -188,6 +188,25 @@ def run(spec, R):
             raise c('thing') if cname in ('ResourceNotFoundError', 'RequestNotAllowed') else c()
         beh['boom'] = raise_ded
         one(R, kind, wsgi, server, rec, 'dedicated:' + which, None, status, {'seed': spec['seed'], 'which': which}, rng)
+        # "for all fault classes (built-in and generated subclasses)": a subclass of a dedicated error is still that error
+        for depth in (1, 2):
+            def raise_sub(token, cname=cname, depth=depth):
+                c = getattr(E, cname)
+                for d in range(depth):
+                    c = type('Gen%s%d' % (cname, d), (c,), {})
+                raise c('thing') if cname in ('ResourceNotFoundError', 'RequestNotAllowed') else c()
+            beh['boom'] = raise_sub
+            R.count('dedicated_subclasses')
+            one(R, kind, wsgi, server, rec, 'dedicated_subclass:' + which, None, status,
+                {'seed': spec['seed'], 'which': which, 'subclass_depth': depth}, rng)
+    # built-in subclasses of the dedicated errors
+    for cname, parent in (('RespawnError', 'ResourceNotFoundError'),):
+        if hasattr(E, cname) and issubclass(getattr(E, cname), getattr(E, parent)):
+            def raise_builtin(token, cname=cname):
+                raise getattr(E, cname)('thing')
+            beh['boom'] = raise_builtin
+            status = [st for (cn, st) in DEDICATED.values() if cn == parent][0]
+            one(R, kind, wsgi, server, rec, 'dedicated_builtin:' + cname, None, status, {'seed': spec['seed'], 'which': cname}, rng)
     # ---- foreign exceptions with secret tokens
     for i in range(n // 2):
         tok = Token(rng)
